@@ -17,6 +17,7 @@ Decided structurally:
   C05.pad       a late-appearing column is padded to the current row count before its first cell; EndRow pads every column
                 (loop over all columns, no early exit) after incrementing the row count
   C05.var       VarClear / VarCopy are total over VAR_TYPE; VarCopy clears the destination and deep-copies strings
+  C05.once      tidy_punch (which writes the headings of every flagged block) is never called from inside a loop over the blocks
   C05.lines     GetSelectedOutputStringLine is range-guarded on the same vector it subscripts (shared with C09.lines)
 Not decided: (c) the text cell equals the table value rendered in the block's format (format strings vs values); row-count
 arithmetic over all block shapes; the selected-output FILE content on disk.
@@ -48,6 +49,44 @@ def run(P, R, tier):
     pad_rules(P, R)
     var_rules(P, R)
     lines_rule(P, R, "C05.lines", only=("GetSelectedOutputStringLine",))
+    once_rule(P, R)
+
+
+# ------------------------------------------------------------------------------------------ headings once
+
+def once_rule(P, R):
+    """Phreeqc::tidy_punch walks over ALL selected-output blocks and writes the headings of every block whose new_def flag
+    is set.  A caller that invokes it from inside its own loop over the blocks repeats the headings of the blocks it has
+    not reached yet in their strings (their files may not even be open): string and file then differ."""
+    R.rule("C05.once", "tidy_punch (which visits every block) is never called from inside a loop over the selected-output blocks", minimum=2)
+    tp = P.one("Phreeqc::tidy_punch")
+    walks_all = any(x[0] == "For" and any(y[0] == "Member" and y[2] == "Phreeqc::SelectedOutput_map" for y in T.walk(x)) for x in T.walk(tp["body"]))
+    if not walks_all:
+        R.anchor_missing("C05.once", "tidy_punch no longer loops over SelectedOutput_map")
+        return
+    n = 0
+    for key, f in sorted(P.functions.items()):
+        def rec(node, in_loop):
+            nonlocal n
+            if not T.is_node(node):
+                return
+            if node[0] in ("For", "While", "Do", "RangeFor"):
+                hdr = [c for c in node[2:5] if T.is_node(c)]
+                over_blocks = any(y[0] == "Member" and y[2] == "Phreeqc::SelectedOutput_map" for h in hdr for y in T.walk(h))
+                for c in T.children(node):
+                    rec(c, in_loop or over_blocks)
+                return
+            if node[0] == "Call" and T.callee_q(node) == "Phreeqc::tidy_punch":
+                n += 1
+                inst = "%s:tidy_punch#%d" % (f["q"], n)
+                if in_loop:
+                    R.violation("C05.once", inst, "tidy_punch() is called inside a loop over the selected-output blocks: blocks not yet reached get their heading line "
+                                "written again (into the string while the file is still closed)", file=f["file"], line=node[1], function=f["q"])
+                else:
+                    R.ok("C05.once", inst, "outside any loop over the blocks")
+            for c in T.children(node):
+                rec(c, in_loop)
+        rec(f["body"], False)
 
 
 # ------------------------------------------------------------------------------------------ siblings
